@@ -17,6 +17,18 @@ def optStrVal : Option String → Val
   | some s => .str s
   | none => .none
 
+/-- `INTERNAL_FLOW_EVENT_ARGUMENTS` (colang_ast.py): a flow parameter with one of these names travels under the key `$<name>` -/
+def internalFlowArgs : List String :=
+  ["flow_id", "flow_instance_uid", "source_flow_instance_uid", "source_head_uid", "flow_hierarchy_position", "activated"]
+
+/-- `flow_argument_key` -/
+def flowArgKey (n : String) : String := if internalFlowArgs.contains n then "$" ++ n else n
+
+/-- `flow_parameter_name` -/
+def flowParamName (k : String) : String :=
+  let rest := String.ofList (k.toList.drop 1)
+  if k.startsWith "$" && internalFlowArgs.contains rest then rest else k
+
 /-- the parameter part of `create_flow_instance(flow_config, uid, pos, event_arguments)`:
     returns (arguments, context additions) -/
 def instanceArguments (cfg : FlowCfg) (evArgs : List (String × Val)) :
@@ -24,19 +36,20 @@ def instanceArguments (cfg : FlowCfg) (evArgs : List (String × Val)) :
   let mut args : List (String × Val) := []
   let mut ctx : List (String × Val) := []
   for p in cfg.params do
-    let v ← match lookupArg p.name evArgs with
+    let key := flowArgKey p.name
+    let v ← match lookupArg key evArgs with
       | some v => pure v
       | none => match p.default with
         | some e => evalEmpty e
         | none => pure Val.none
-    args := setArg p.name v args
+    args := setArg key v args
     ctx := setArg p.name v ctx
   let mut idx := 0
   for p in cfg.params do
     let pos := s!"${idx}"
     match lookupArg pos evArgs with
     | some v =>
-      args := setArg p.name v args
+      args := setArg (flowArgKey p.name) v args
       args := setArg pos v args
     | none => pure ()
     idx := idx + 1
